@@ -57,7 +57,21 @@ func expression(shape [][]int, head string, suffix string) (string, error) {
 	return sb.String(), nil
 }
 
+// concretise applies the two file-level dimensions of a case on top of the slot/shape concretisation: a composite
+// literal inside a one-line expression (flavour "brace") and CRLF line endings (eol "crlf").
 func concretise(c genCase) (src string, expr string, err error) {
+	src, expr, err = concretiseLF(c)
+	if err != nil {
+		return
+	}
+	if c.EOL == "crlf" {
+		src = strings.ReplaceAll(src, "\n", "\r\n")
+		expr = strings.ReplaceAll(expr, "\n", "\r\n")
+	}
+	return
+}
+
+func concretiseLF(c genCase) (src string, expr string, err error) {
 	pre, err := ident(c.Pre, 2)
 	if err != nil {
 		return "", "", err
@@ -65,6 +79,9 @@ func concretise(c genCase) (src string, expr string, err error) {
 	e, err := expression(c.Shape, "fn", "")
 	if err != nil {
 		return "", "", err
+	}
+	if c.Flavour == "brace" {
+		e = "fn([]T{" + e + "})"
 	}
 	inl := "" // an inline element holding the multi-byte text in front of a statement
 	if pre != "" {
